@@ -896,6 +896,39 @@ def rule_r9(ctx):
                      "descriptor never becomes readable" % (c.node["fn"], c.line))
 
 
+def rule_r10(ctx):
+    r = ctx.rule("C15.R10", "T2", "room is handed to those who wait for it: a function of the message queue that changes its capacity "
+                 "(mq_cap) serves the blocked writers (nni_msgq_run_putq) before it releases the lock -- the fast path of "
+                 "nni_msgq_aio_put only admits a writer when nobody is ahead of it, so with writers left waiting beside free room "
+                 "the descriptor polls ready while every non-blocking send answers NNG_EAGAIN", floor=1)
+    prog = ctx.prog
+    n = 0
+    for f in prog.fns_in("core/msgqueue.c"):
+        if f.cfg_failed or f.name.endswith(("_init", "_fini")):
+            continue
+        caps = [t for t in f.assigns() if t.node["lhs"].get("k") == "mem" and last_field(t.node["lhs"]) == "nni_msgq.mq_cap"]
+        if not caps:
+            continue
+        serve = {(c.b, c.i) for c in f.calls("nni_msgq_run_putq")}
+
+        def is_unlock(e):
+            return e is not None and any(m.get("k") == "call" and m.get("fn") == UNLOCK for m in walk(e))
+        for t in caps:
+            n += 1
+            after = f.reach((t.b, t.i + 1), blocked=lambda b, i, e: (b, i) in serve)
+            leak = [(b, i) for (b, i) in after if (i < len(f.blocks[b].elems) and is_unlock(f.blocks[b].elems[i])) or (b, i) == (f.exit, 0)]
+            if leak:
+                ctx.fail(r, f, "mq_cap changed without serving the blocked writers", t.line,
+                         "%s stores a new capacity at line %s and releases the queue (line %s) without nni_msgq_run_putq: writers "
+                         "parked while the queue was full stay parked although there is room now, and because they are ahead of "
+                         "everybody a non-blocking send is refused while the send descriptor polls ready"
+                         % (f.name, t.line, f.line_of(*leak[0])))
+            else:
+                r.ob(f, "mq_cap line %s: blocked writers served before the lock is released" % t.line)
+    if n < 1:
+        raise AnalysisBroken("no store to mq_cap outside init found")
+
+
 def run(ctx):
     ctx.guard(rule_a6)
     ctx.guard(rule_r4)
@@ -904,3 +937,4 @@ def run(ctx):
     ctx.guard(rule_r7)
     ctx.guard(rule_r8)
     ctx.guard(rule_r9)
+    ctx.guard(rule_r10)
